@@ -131,6 +131,9 @@ def cases_stage(V, tier):
                 pass
 
     def witness(t, v):
+        if t['test'].startswith('dynamic-'):
+            from harness import lookup_rec
+            return {'source': lookup_rec.DYNAMIC[int(t['test'].split('-')[1].split()[0])][0], 'client': 'acquires n while rendering'}
         i = int(t['test'].split('-')[1].split()[0])
         case, plan = jobs[i]
         return {'source': render.pr(case['prog']), 'plan': plan, 'case': case}
